@@ -32,6 +32,7 @@ import (
 	"sort"
 	"strconv"
 	"strings"
+	"time"
 
 	"github.com/wader/fq/internal/verif/core"
 	"github.com/wader/fq/internal/verif/dsl"
@@ -393,8 +394,9 @@ func valueHistoriesGenerated(r *core.Run, ops []vop, nAlpha, obs, gapc int, grou
 				if gi%parts != part {
 					continue
 				}
+				// second operations that leave the option unset are the observation of (1)
 				for _, a := range g {
-					for _, b := range g {
+					for _, b := range g[2:] {
 						cs = append(cs, mk([]int{a, b}))
 						nPairs++
 					}
@@ -517,7 +519,11 @@ func valueHistoriesCorpus(r *core.Run, ops []vop, nAlpha, obs, gapc int, prog st
 		for a := 0; a < nAlpha; a++ {
 			cs = append(cs, mk([]int{a, obs}))
 		}
+		t0 := time.Now()
 		got, err := runCases(files, prog, cs)
+		if os.Getenv("C18_DEBUG") != "" {
+			fmt.Printf("DEBUG valhist corpus %s -d %s %d bytes: %v\n", j.Path, j.Format, len(j.data), time.Since(t0))
+		}
 		if err != nil {
 			r.Violate("harness:valhist-driver", fmt.Sprintf("%s -d %s: %v", j.Path, j.Format, err), vc(nil))
 			continue
